@@ -2949,6 +2949,19 @@ class Walker:
                 or (args[0][0] == "call" and args[0][1] == ("builtin", "len"))
                 or (args[0][0] == "idx" and args[0][1][0] == "attr" and args[0][1][2] == "shape" and args[0][2][0] == "const")):
             return args[0]
+        # int(struct.unpack(fmt, buf)[k]): the fields the library's formats unpack at the head of a record are integers already
+        if fn == ("builtin", "int") and len(args) == 1 and not kwargs and args[0][0] == "idx" and args[0][2][0] == "const" \
+                and args[0][1][0] == "call" and args[0][1][1] == ("mod", "struct.unpack") and args[0][1][2] \
+                and isinstance(args[0][2][1], int) and args[0][2][1] >= 0:
+            fmt = args[0][1][2][0]
+            if fmt[0] == "bin" and fmt[1] == "+" and "const" in (fmt[2][0], fmt[3][0]):  # '<ii' + 'f' * n: the leading fields
+                fmt, lead = (fmt[2] if fmt[2][0] == "const" else fmt[3]), True  # (operands are kept in canonical order)
+            else:
+                lead = False
+            if fmt[0] == "const" and isinstance(fmt[1], str):
+                codes = fmt[1].lstrip("<>=!@")
+                if codes and set(codes) <= set("iIlLqQhHbB") and (args[0][2][1] < len(codes) if lead else True):
+                    return args[0]
         # int(np.max(labels)) of a label vector: labels are integers already
         if fn == ("builtin", "int") and len(args) == 1 and not kwargs and args[0][0] == "call" \
                 and args[0][1] in (("mod", "numpy.max"), ("mod", "numpy.amax")) and len(args[0][2]) == 1 and not args[0][3]:
